@@ -537,7 +537,11 @@ class PaddedMatrix(Family):
         MUL, DIV = st.get("MUL"), st.get("DIV")
         if MUL is None:
             # no row has a cell: the matrix has no columns, nothing is read or written
-            ctx.prove_then_assume("late.lemma: without columns there is no index to check", z3.BoolVal(False), kind="lemma", pool=[w, n, z3.IntVal(0)])
+            # W is numpy.max of the row lengths: attained at a row (its contract, restated with a name), hence W >= 0, and W <= 0 on this path
+            wr0 = z3.Int("late_wr0")
+            ctx.assume(z3.And(0 <= wr0, wr0 < n, L(wr0) == W))
+            ctx.prove_then_assume("late.lemma: the matrix has no columns", W == 0, kind="lemma", pool=[wr0, wr0 + 1])
+            ctx.prove_then_assume("late.lemma: without columns there is no index to check", z3.BoolVal(False), kind="lemma", pool=[w, n, z3.IntVal(0), wr0])
             return
         wr = z3.Int("late_wr")
         ctx.assume(z3.And(0 <= wr, wr < n, L(wr) == W))            # numpy.max is attained (its contract; restated with a name)
